@@ -1,12 +1,15 @@
 /-
-C10 — K-mer index returns exactly the occurrences of every k-mer.  Property theorems only.
+C10 — K-mer index returns exactly the occurrences of every k-mer.  Property theorems only;
+the lemmas are in `Biogo/Proofs/Kmer.lean`.  The model is `Biogo/Model/Kmer.lean` (the functions
+the driver executes), the plain-scan spec is `Biogo/Spec/Kmer.lean`.
 -/
 import Biogo.Model.Kmer
 import Biogo.Spec.Kmer
+import Biogo.Proofs.Kmer
 import Biogo.Generated.KmerFacts
 
 namespace Biogo.Properties.C10
-open Biogo.Kmer Biogo.Spec.Kmer
+open Biogo.Kmer Biogo.Spec.Kmer Biogo.Proofs.Kmer
 
 /-- the constants the model assumes are the constants of the package as compiled -/
 theorem facts_tie :
@@ -14,5 +17,44 @@ theorem facts_tie :
     Biogo.Generated.KmerFacts.minKmerLen = minKmerLen ∧
     Biogo.Generated.KmerFacts.maxKmerLen = maxKmerLen ∧
     2 * maxKmerLen ≤ wordBits := by decide
+
+/-- "Iterating k-mers over any sub-range visits exactly the valid windows of that range in
+    increasing order": for every sequence, every `start`, `end` (in range or not) and every `k`
+    that fits the word type, the callback arguments of `ForEachKmerOf` are the list
+    `validWindows` of the plain scan; and no error is returned when the range is inside the
+    sequence. -/
+theorem foreach_spec {lk : Lookup} (hlk : FourLetter lk) (k : Nat) (hk : 1 ≤ k) (hk2 : 2 * k ≤ wordBits)
+    (s : List UInt8) (start end_ : Nat) :
+    (forEachKmer lk k s start end_).calls = validWindows lk k s start end_ ∧
+    (start + (k - 1) ≤ s.length → end_ ≤ s.length → (forEachKmer lk k s start end_).err = false) :=
+  ⟨forEachKmer_calls hlk k hk hk2 s start end_, forEachKmer_err lk k s start end_⟩
+
+/-- what the list `validWindows` is: `(p, w)` is in it exactly when `p` lies in the range with its
+    whole window (`start ≤ p`, `p + k ≤ end`) and the `k` letters at `p` are all valid and spell
+    `w`; and the list is strictly increasing in `p`. -/
+theorem validWindows_spec (lk : Lookup) (k : Nat) (s : List UInt8) (start end_ : Nat) :
+    (∀ c : Nat × Nat, c ∈ validWindows lk k s start end_ ↔
+      start ≤ c.1 ∧ c.1 + k ≤ end_ ∧ c.1 - start < (s.drop start).length ∧ wordAt lk k s c.1 = some c.2) ∧
+    (validWindows lk k s start end_).Pairwise (fun a b => a.1 < b.1) := by
+  constructor
+  · intro c
+    unfold validWindows wordAt
+    rw [List.mem_filter, mem_wordsFrom_iff]
+    constructor
+    · rintro ⟨⟨h1, h2, h3⟩, h4⟩
+      rw [List.drop_drop, show start + (c.1 - start) = c.1 by omega] at h3
+      exact ⟨h1, by simpa using h4, h2, h3⟩
+    · rintro ⟨h1, h2, h3, h4⟩
+      refine ⟨⟨h1, h3, ?_⟩, by simpa using h2⟩
+      rw [List.drop_drop, show start + (c.1 - start) = c.1 by omega]
+      exact h4
+  · exact (wordsFrom_pairwise lk k _ start).filter _
+
+-- non-vacuity: a real lookup, a window with an invalid letter inside, a proper sub-range
+example :
+    let lk : Lookup := fun b => if b = 97 then some 0 else if b = 99 then some 1 else if b = 103 then some 2
+      else if b = 116 then some 3 else none
+    (forEachKmer lk 4 [97, 99, 103, 116, 110, 97, 97, 99, 103, 116, 116] 1 11).calls = [(5, 6), (6, 27), (7, 111)] := by
+  decide
 
 end Biogo.Properties.C10
